@@ -381,7 +381,7 @@ class Ref:
                 return 1.0 / (x + p["nu"]) ** 2
             if nm == "Sinh":
                 u = (x - p["nu"]) * p["scale"]
-                return p["scale"] / np.sqrt(1 + u * u)
+                return p["scale"] / np.hypot(1.0, u)        # (no overflow of u * u)
             if nm == "LogSinh":
                 w = self.a + self.b * x / p["xmax"]
                 return 1.0 / (np.tanh(w) * p["xmax"])
